@@ -88,8 +88,11 @@ def check_worker_wiring(prop: str, acc: Acc) -> None:
     from taskiq.acks import AcknowledgeType
 
     grid = list(itertools.product((1, 2, 7), (0, 1, 3), (None, 1, 5), (None, 0.5, 2.0), (None, "when_received", "when_executed", "when_saved", "WHEN_EXECUTED"), (False, True), (False, True)))
-    for A, P, N, W, ack, no_parse, no_prop in grid:
+    for gi, (A, P, N, W, ack, no_parse, no_prop) in enumerate(grid):
         argv = ["pkg.mod:broker", "--max-async-tasks", str(A), "--max-prefetch", str(P)]
+        # unrelated options vary along the grid: they must not influence what the receiver gets
+        extra = [[], ["--max-threadpool-threads", "8"], ["--max-threadpool-threads", "1"], ["--shutdown-timeout", "1"], ["--hardkill-count", "0"]][gi % 5]
+        argv += extra
         if N is not None:
             argv += ["--max-tasks-per-child", str(N)]
         if W is not None:
@@ -124,6 +127,7 @@ def check_worker_wiring(prop: str, acc: Acc) -> None:
         acc.outcome(("wiring", prop, tuple(want[f] for f in fields)))
     acc.sample({"cli_wiring": {"property": prop, "grid_points": len(grid), "example_argv": argv}})
     check_api_wiring(prop, acc)
+    check_inmemory_wiring(prop, acc)
 
 
 def check_api_wiring(prop: str, acc: Acc) -> None:
@@ -169,6 +173,31 @@ def check_api_wiring(prop: str, acc: Acc) -> None:
             if captured.get(f, "<missing>") != want[f]:
                 acc.violation(f"api-wiring-{f}", f"run_receiver_task(max_async_tasks={A}, max_prefetch={P}, ack_time={ack}, validate_params={val}, "
                               f"propagate_exceptions={prop_exc}): Receiver got {f}={captured.get(f, '<missing>')!r}", {"api_wiring": [A, P, str(ack), val, prop_exc]})
+
+
+def check_inmemory_wiring(prop: str, acc: Acc) -> None:
+    """InMemoryBroker(...) options reach the receiver it uses - also after startup()."""
+    from taskiq import InMemoryBroker
+    from mc.vloop import run_sync
+
+    for A, cast, prop_exc, started in itertools.product((1, 3, 30), (True, False), (True, False), (False, True)):
+        b = InMemoryBroker(max_async_tasks=A, cast_types=cast, propagate_exceptions=prop_exc)
+        if started:
+            run_sync(b.startup())
+        r = b.receiver
+        got = {"max_async_tasks": None if r.sem is None else r.sem._value, "validate_params": r.validate_params, "propagate_exceptions": r.propagate_exceptions}
+        want = {"max_async_tasks": A, "validate_params": cast, "propagate_exceptions": prop_exc}
+        acc.evaluations += 1
+        acc.paths += 1
+        acc.count("wiring_cases")
+        fields = {"C03": ["max_async_tasks"], "C04": ["max_async_tasks"], "C07": ["validate_params"], "C12": ["propagate_exceptions"]}.get(prop, [])
+        for f in fields:
+            if got[f] != want[f]:
+                acc.violation(f"inmemory-wiring-{f}", f"InMemoryBroker(max_async_tasks={A}, cast_types={cast}, propagate_exceptions={prop_exc}), startup called={started}: its receiver has {f}={got[f]!r}", {"inmemory_wiring": [A, cast, prop_exc, started]})
+        try:
+            b.executor.shutdown(wait=False)
+        except Exception:
+            pass
 
 
 def check_manager_wiring(acc: Acc) -> None:
